@@ -1,4 +1,198 @@
 package main
 
-// CG is filled in by cg.go (call graph); placeholder until built.
-type CG struct{}
+import (
+	"sort"
+	"strings"
+
+	"golang.org/x/tools/go/ssa"
+)
+
+// CG is a light-weight module call graph: static calls, closures created in
+// a function (they may be called by it or by its callees), function values
+// referenced as data (callbacks), and interface invocations resolved by CHA
+// over module-defined interfaces and module types.
+type CG struct {
+	p     *Prog
+	impls map[string][]*ssa.Function
+	succ  map[*ssa.Function][]cgEdge
+}
+
+type cgEdge struct {
+	To   *ssa.Function
+	Site ssa.Instruction
+	Kind string // call | invoke | closure | funcvalue
+}
+
+func (p *Prog) CallGraph() *CG {
+	if p.cg != nil {
+		return p.cg
+	}
+	w := newWTF(p) // reuse CHA tables
+	g := &CG{p: p, impls: w.impls, succ: map[*ssa.Function][]cgEdge{}}
+	for _, fn := range p.ModFuncs {
+		if fn.Blocks == nil {
+			continue
+		}
+		if fn.Origin() != nil && fn.Origin() != fn {
+			continue
+		}
+		seen := map[*ssa.Function]bool{}
+		add := func(to *ssa.Function, site ssa.Instruction, kind string) {
+			if to == nil {
+				return
+			}
+			if to.Origin() != nil {
+				to = to.Origin()
+			}
+			if seen[to] {
+				return
+			}
+			seen[to] = true
+			g.succ[fn] = append(g.succ[fn], cgEdge{to, site, kind})
+		}
+		for _, b := range fn.Blocks {
+			for _, in := range b.Instrs {
+				if c, ok := in.(ssa.CallInstruction); ok {
+					cc := c.Common()
+					if cc.IsInvoke() {
+						for _, impl := range g.impls[tfname(cc.Method)] {
+							add(impl, in, "invoke")
+						}
+					} else if f := cc.StaticCallee(); f != nil {
+						add(f, in, "call")
+					}
+				}
+				for _, op := range in.Operands(nil) {
+					if op == nil || *op == nil {
+						continue
+					}
+					switch v := (*op).(type) {
+					case *ssa.MakeClosure:
+						if f, ok := v.Fn.(*ssa.Function); ok {
+							add(f, in, "closure")
+						}
+					case *ssa.Function:
+						if c, isCall := in.(ssa.CallInstruction); isCall && c.Common().Value == v {
+							continue
+						}
+						add(v, in, "funcvalue")
+					}
+				}
+			}
+		}
+	}
+	p.cg = g
+	return g
+}
+
+// Cone returns the module functions reachable from entries, not descending
+// into functions for which skip returns true. parent[f] is the edge through
+// which f was first reached (for shortest call chains).
+func (g *CG) Cone(entries []*ssa.Function, skip func(*ssa.Function) bool) (cone []*ssa.Function, parent map[*ssa.Function]*cgFrom) {
+	parent = map[*ssa.Function]*cgFrom{}
+	seen := map[*ssa.Function]bool{}
+	var queue []*ssa.Function
+	for _, e := range entries {
+		if e == nil || seen[e] {
+			continue
+		}
+		seen[e] = true
+		queue = append(queue, e)
+	}
+	for len(queue) > 0 {
+		f := queue[0]
+		queue = queue[1:]
+		cone = append(cone, f)
+		for _, e := range g.succ[f] {
+			if seen[e.To] || !inModule(fpkgPath(e.To)) {
+				continue
+			}
+			if skip != nil && skip(e.To) {
+				continue
+			}
+			seen[e.To] = true
+			parent[e.To] = &cgFrom{f, e.Site}
+			queue = append(queue, e.To)
+		}
+	}
+	sort.Slice(cone, func(i, j int) bool { return fname(cone[i]) < fname(cone[j]) })
+	return
+}
+
+type cgFrom struct {
+	Fn   *ssa.Function
+	Site ssa.Instruction
+}
+
+// Chain renders the call chain from an entry to f.
+func (g *CG) Chain(parent map[*ssa.Function]*cgFrom, f *ssa.Function) string {
+	var parts []string
+	for i := 0; f != nil && i < 30; i++ {
+		parts = append([]string{fname(f)}, parts...)
+		p := parent[f]
+		if p == nil {
+			break
+		}
+		f = p.Fn
+	}
+	if len(parts) > 6 {
+		parts = append(append([]string{}, parts[:2]...), append([]string{"…"}, parts[len(parts)-3:]...)...)
+	}
+	return strings.Join(parts, " → ")
+}
+
+// skipEffectFree: packages whose functions are treated as effect-free leaves
+// (logging, metrics, formatting, pub-sub delivery to external subscribers).
+func skipEffectFree(fn *ssa.Function) bool {
+	pp := short(fpkgPath(fn))
+	for _, pre := range []string{"common/logging", "common/pubsub", "common/prettyprint", "common/service", "common/metrics"} {
+		if pp == pre || strings.HasPrefix(pp, pre+"/") {
+			return true
+		}
+	}
+	return false
+}
+
+// coneUniverse: packages that can be on the consensus execution cone. Interface
+// calls are resolved by CHA over the whole module, which also finds
+// implementations that a consensus node never wires into block execution
+// (remote read syncers, stateless/light clients, service clients, p2p,
+// workers); they are cut here. The node database and the tree implementation
+// below the KeyValueTree interface are decided by C02/C06/C07, not here.
+func outsideConeUniverse(fn *ssa.Function) bool {
+	pp := short(fpkgPath(fn))
+	for _, pre := range []string{"p2p", "worker", "consensus/cometbft/stateless", "consensus/cometbft/light", "consensus/cometbft/full",
+		"oasis-node", "oasis-test-runner", "oasis-net-runner", "storage", "runtime/host", "runtime/bundle", "runtime/registry", "sentry", "ias", "control",
+		"consensus/cometbft/beacon", "consensus/cometbft/registry", "consensus/cometbft/staking", "consensus/cometbft/roothash", "consensus/cometbft/scheduler",
+		"consensus/cometbft/governance", "consensus/cometbft/vault", "consensus/cometbft/keymanager", "consensus/cometbft/consensus", "consensus/cometbft/db"} {
+		if pp == pre || strings.HasPrefix(pp, pre+"/") {
+			return true
+		}
+	}
+	return skipEffectFree(fn)
+}
+
+// abciEntries: the consensus execution entry points (DESIGN C01 E_abci).
+func abciEntries(p *Prog, g *CG) []*ssa.Function {
+	var out []*ssa.Function
+	for _, key := range []string{
+		"consensus/cometbft/api.(Application).InitChain", "consensus/cometbft/api.(Application).BeginBlock",
+		"consensus/cometbft/api.(Application).ExecuteTx", "consensus/cometbft/api.(Application).EndBlock",
+		"consensus/cometbft/api.(Extension).InitChain", "consensus/cometbft/api.(Extension).BeginBlock",
+		"consensus/cometbft/api.(Extension).ExecuteTx", "consensus/cometbft/api.(Extension).EndBlock",
+		"consensus/cometbft/api.(MessageSubscriber).ExecuteMessage",
+		"consensus/cometbft/api.(TransactionAuthHandler).AuthenticateTx", "consensus/cometbft/api.(TransactionAuthHandler).PostExecuteTx",
+	} {
+		for _, f := range g.impls[key] {
+			if f.Blocks != nil && strings.HasPrefix(short(fpkgPath(f)), "consensus/cometbft/apps/") {
+				out = appendUniqueFn(out, f)
+			}
+		}
+	}
+	for _, n := range []string{"InitChain", "BeginBlock", "DeliverTx", "EndBlock", "Commit", "PrepareProposal", "ProcessProposal", "FinalizeBlock"} {
+		if f := p.Fn("consensus/cometbft/abci.(*abciMux)." + n); f != nil {
+			out = appendUniqueFn(out, f)
+		}
+	}
+	return out
+}
